@@ -231,7 +231,7 @@ def run(ctx):
     t1 = time.time()
     usable, skipped, hist = driver_layer(ctx, out["drivers"])
     t2 = time.time()
-    per, nsim = diff_layer(ctx, out["diff"], 80 if quick else 100000)
+    per, nsim = diff_layer(ctx, out["diff"], 45 if quick else 100000)
     ctx.notes.append(f"timing: impl {t1 - t0:.1f}s, driver tie {t2 - t1:.1f}s, exact differential {time.time() - t2:.1f}s")
     ctx.coverage.update({
         "evaluations": len(usable) + len(out["diff"]),
